@@ -122,14 +122,24 @@ PRE_SEPS = ('', '.', '-', '_')
 POST_FORMS = ('.post%d', 'post%d', '-post%d', '_post%d', '.rev%d', '.r%d', '-%d')
 DEV_FORMS = ('.dev%d', 'dev%d', '-dev%d', '_dev%d')
 STYLE_FIELDS = (('pre_name', 4), ('pre_sep', len(PRE_SEPS)), ('post', len(POST_FORMS)),
-                ('dev', len(DEV_FORMS)), ('v', 2), ('upper', 2), ('implicit0', 2), ('epoch0', 2))
+                ('dev', len(DEV_FORMS)), ('v', 2), ('upper', 2), ('implicit0', 2), ('epoch0', 2), ('zeros', 6))
 
 
 def render_alt(v, style):
     """Non-canonical but PEP 440-equivalent text; style maps field -> index."""
     g = style.get
-    s = ('%d!' % v.epoch) if (v.epoch or g('epoch0')) else ''
-    s += '.'.join(str(c) for c in v.release)
+    # PEP 440 "Integer Normalization": every numeric component may carry leading zeros ("01.5" is 1.5, "00!1" is 0!1)
+    z = g('zeros', 0)
+    efmt = '%03d!' if z == 5 else '%d!'
+    s = (efmt % v.epoch) if (v.epoch or g('epoch0')) else ''
+    rel = [str(c) for c in v.release]
+    if z == 3:
+        rel[0] = '0' + rel[0]
+    elif z == 4:
+        rel[-1] = '00' + rel[-1]
+    elif z == 5:
+        rel = ['0' + c for c in rel]
+    s += '.'.join(rel)
     parts = []
     if v.pre is not None:
         names = PRE_NAMES[v.pre[0]]
